@@ -16,7 +16,8 @@ type propDef struct {
 var propertyOrder = []string{"C01", "C02", "C03", "C04", "C05", "C06", "C07", "C08", "C09", "C10", "C11", "C12", "C13", "C14", "C15", "C16", "C17"}
 
 const techTab = "constant-table extraction from the type-checked AST, compared row by row with an independent music-theory specification"
-const techPath = "SSA dominance / path rules and affine-form dataflow over go/ssa"
+const techPath = "SSA dominance / path rules and affine-form dataflow over go/ssa (rules look at a function together with the same-package helpers it calls and resolve values through parameters, locals and helper returns)"
+const techFold = "conditional constant propagation over go/ssa with the parameters bound to each element of a finite input domain (falls back to the shape rule when a branch does not fold)"
 
 var properties = map[string]*propDef{
 	"C01": {
@@ -33,13 +34,13 @@ var properties = map[string]*propDef{
 	},
 	"C03": {
 		Rules:       []string{"TAB-KEYSIG", "TAB-NOTE", "TAB-DEGREE", "TAB-SEARCH", "SCALEWIRE", "CONVORDER", "ERRFLOW", "ERRDROP", "WIRE", "NAMEDEGREE"},
-		Technique:   techTab + " (narrow claim: preconditions only)",
+		Technique:   techTab + "; op.ScaleNote.GetDegree decided on its whole 21 x 21 x 2 domain by " + techFold + " (narrow claim: preconditions and the degree search)",
 		Explanation: "only the table preconditions of the conversion: in all 28 signature rows the tonic built by NewScale carries the key's own accidental; letter pitches, accidental offsets and interval sizes are right; both quality-search lists contain major/perfect, minor/diminished and augmented (what the seven diatonic notes and tritone basses need); Tendency folds to the documented result on all 16 input pairs; NewScale applies a row as sharp/flat/natural correctly.",
 		NotDecided:  "the search in ScaleNote.GetDegree and the letter distance in Name.GetDegree over the 12,936-case product: that is an enumeration over runtime values, nothing sound can be said about it statically with the tools in reach. Most signature-row corruptions do not affect this property at all (only the tonic's accidental matters); they are C13's business.",
 	},
 	"C04": {
 		Rules:       []string{"GEN-YACC", "TOKENS", "LEXMODE", "PARSEERR", "EOFPRED", "UNDERSCORE", "ERRDROP"},
-		Technique:   "goyacc regeneration with AST comparison, token-set agreement between grammar and lexer, lexer-mode typestate on SSA, constant folding of loop predicates at EOF",
+		Technique:   "goyacc regeneration with AST comparison, token-set agreement between grammar and lexer, lexer-mode typestate on SSA, the lexer's rune -> token decision and digit class by folding ScanFunc / scanDigits with Peek() bound to probe runes, constant folding of loop predicates at EOF",
 		Explanation: "the shipped parser is AST-equal to what goyacc generates from chords.y and the grammar has 0 conflicts (so, trusting goyacc, it accepts exactly L(chords.y) over token strings); every terminal the rules use is produced by the lexer and nothing undeclared is; white space is discarded before every token, `;` skips to end of line, `{`/`}` and `_` switch the lexer modes and the modes are cleared again; a parser failure cannot be swallowed: parseText returns the lexer's error and every caller tests it before touching the tree (default reductions may store a result for a text that is then rejected); every lexer loop predicate is false at end of input, so a text cut inside a symbol, comment or metadata run terminates and is rejected; the grammar actions list each field from the right position.",
 		NotDecided:  "that the rune classes of scanSymbol / scanMetadata match an external description (the code is the documentation there); bounded-exhaustive acceptance against an independent recogniser.",
 	},
@@ -99,13 +100,13 @@ var properties = map[string]*propDef{
 	},
 	"C14": {
 		Rules:       []string{"TAB-CIRCLE", "CIRCLEWIRE", "TAB-KEYSIG", "WIRE"},
-		Technique:   techTab + ": ring laws and exhaustive chain check on the extracted model; wiring of find/index/Ring.At on SSA",
+		Technique:   techTab + ": ring laws and exhaustive chain check on the extracted model; wiring of find/index on SSA (guarded alternatives), Ring.At by " + techFold,
 		Explanation: "both rings have 12 slots, each slot's spellings are enharmonic, each step is a fifth up, the rings are aligned as relatives, the slots partition the supported keys (so results list every spelling); the four (other-ring, delta) pairs are (no,+1) (no,-1) (yes,0) (yes,-3/+3); on the extracted model every conversion of every key satisfies its definition and all 152,880 chains of length <= 6 satisfy d.s=id, r.r=p.p=id, d^12=id; the code conforms to the model: index in the key's own ring, slot index+delta in the requested ring, modulo wrap both ways, member threaded through the steps in order; CLI letters p r d s select the right conversions.",
 		NotDecided:  "nothing of substance beyond `code = model` being a structural, not a semantic, equivalence.",
 	},
 	"C15": {
 		Rules:       []string{"TAB-DEGREE", "TAB-NOTATION", "TAB-NOTE", "ADDDEGREE", "RECUR", "WIRE"},
-		Technique:   techTab + ": 14-row size table, adjustment tuples, octave constants, model agreement for 1..64 x 7",
+		Technique:   techTab + ": 14-row size table; note.Degree.Semitone on 8 qualities x numbers 0..64 (both visiting orders of its table), Semitone.Octave / WithoutOctave, Accidental.Semitone by " + techFold + "; adjustment tuples, octave constants and model agreement for 1..64 x 7 when the size function does not fold",
 		Explanation: "the size table row by row, the four quality-adjustment tuples, the octave constants (7 numbers, 12 semitones), and agreement of the extracted tables + documented algorithm with the specification on size and validity for numbers 1..64 x 7 qualities; notation marks and the parser's candidate list (equal images, longest first); AddDegree adds root and interval, splits with floor semantics on 12 and tries natural, then the requested accidental, then the other; compound intervals are computed without unbounded recursion.",
 		NotDecided:  "ParseDegree's use of strings.Trim (it accepts some non-canonical spellings such as `3b`; the property only needs printed notation to read back); findNameBySemitone's search as a computation.",
 	},
